@@ -24,7 +24,8 @@ def classify(d, text, answer):
     """attribute an accounting difference to a listed defect, by what the statement contains"""
     from props import c06
     import re
-    cls = c06.finding_class(d, [text])
+    # the whitespace pre-pass acts on input and printed text alike, so it can never cause an accounting difference
+    cls = c06.finding_class(d, [text.replace("\t", " ").replace("\r\n", "\n").replace("\u3000", " ")])
     if cls:
         return cls
     up = text.upper()
